@@ -172,11 +172,13 @@ int epoll_ctl(int epfd, int op, int fd, struct epoll_event *ev)
 	case EPOLL_CTL_ADD:
 		if (g->present) { errno = EEXIST; r = -1; break; }
 		VP_ASSERT(ev != NULL, "kernel model: epoll_ctl ADD with NULL event");
-		g->present = 1; g->events = ev->events; g->data_fd = ev->data.fd; break;
+		VP_ASSERT(ev->data.fd == fd, "kernel model restriction: the back end registers its own fd as epoll user data");
+		g->present = 1; g->events = ev->events; g->data_fd = fd; break;
 	case EPOLL_CTL_MOD:
 		if (!g->present) { errno = ENOENT; r = -1; break; }
 		VP_ASSERT(ev != NULL, "kernel model: epoll_ctl MOD with NULL event");
-		g->events = ev->events; g->data_fd = ev->data.fd; break;
+		VP_ASSERT(ev->data.fd == fd, "kernel model restriction: the back end registers its own fd as epoll user data");
+		g->events = ev->events; g->data_fd = fd; break;
 	case EPOLL_CTL_DEL:
 		if (!g->present) { errno = ENOENT; r = -1; break; }
 		g->present = 0; g->events = 0; g->data_fd = -1; break;
@@ -205,10 +207,11 @@ static int vp_k_epoll_wait_common(int epfd, struct epoll_event *events, int maxe
 		rev = vp_kf[fd].ready & ((g->events & (EPOLLIN | EPOLLOUT | EPOLLRDHUP)) | EPOLLERR | EPOLLHUP);
 		if (!rev || n >= maxevents) continue;
 		events[n].events = rev;
-		/* only the member the back ends read is written (epoll_data_t's representation in cbmc is its first member,
-		 * a pointer: anything written through .u64 comes back from .fd as an unfoldable bit-extract of a pointer
-		 * constant and the caller's fd becomes symbolic); the other bytes keep what the caller's buffer held */
-		events[n].data.fd = g->data_fd;
+		/* the user data comes back as a whole union value built from the member the back ends read: cbmc keeps a union
+		 * as one atomic value, and a partial write (or a write through .u64) comes back from .fd as an unfoldable byte
+		 * operation, which makes the fd the back end hands to evmap_io_active_() symbolic (measured: symex explodes).
+		 * (The registered data is asserted to be the fd itself in epoll_ctl above, so nothing is lost.) */
+		events[n].data = (epoll_data_t){ .fd = g->data_fd };
 		n++;
 	}
 	return n;
